@@ -112,6 +112,7 @@ func caseOptions(r *common.Run, n int) raftsim.Options {
 	case "C17":
 		o.Steps = 1200 + rng.Intn(2000)
 		o.WPartition, o.WCrash, o.WTransfer = 2, 2, 2
+		o.MuteTransferTarget = true
 		// rate limiting in a quarter of the cases (own PRNG stream: the other cases keep their shape)
 		if rl := r.Rand("ratelimit", n); rl.Intn(4) == 0 {
 			o.MaxInMem = uint64(2048 + rl.Intn(16384))
